@@ -516,7 +516,13 @@ def run(rep, tier, seed):
                         d = bytes.fromhex(t[2]); bs[int(t[1]):int(t[1]) + len(d)] = d[:512 - int(t[1])]
                 st, ln = fat_region_of(bytes(bs))
                 fills.append((label, ["dev %d 0" % size, "wlog 0"] + pokes + ["pages", "wlog 1", "mount 1 0 lossy"] +
-                              fill_body(rng, cl, 30) + ["drop_all", "unmount", "dump %d %d" % (st, ln)]))
+                              fill_body(rng, cl, 30) +
+                              # then: take every remaining cluster, close the session, and ask for one more cluster in a fresh
+                              # session (no allocation hint: the scan starts at cluster 2 of a table without a free entry)
+                              ["create_file 0 %s 90" % hexs("takes all the rest.bin"), "write_pat 90 %d 5" % (200 * cl), "drop_all", "unmount",
+                               "mount 1 0 lossy", "create_file 0 %s 91" % hexs("one more.bin"), "write_pat 91 %d 6" % cl, "drop_file 91",
+                               "create_dir 0 %s 0" % hexs("one more dir"), "stats"] +
+                              ["drop_all", "unmount", "dump %d %d" % (st, ln)]))
                 continue
             if quick and label in ("fat32-3copies-mirroroff-active0", "fat32-3copies-mirroroff-active1", "fat32-2copies-mirroroff-active0"):
                 continue
